@@ -31,7 +31,17 @@ Lemma tie_C06 :
   /\ flow_client_Conn_initialise
     = ["set conn.io"; "set conn.sock"; "set conn.in"; "set conn.out"; "set conn.die"; "if{"; "conn.st.Wipe"; "}"]%string
   /\ flow_client_Conn_Connected = ["conn.connectedMu.RLock"; "defer conn.connectedMu.RUnlock"; "return"]%string
-  /\ flow_client_Conn_setConnected = ["conn.connectedMu.Lock"; "set conn.connected"; "conn.connectedMu.Unlock"]%string.
+  /\ flow_client_Conn_setConnected = ["conn.connectedMu.Lock"; "set conn.connected"; "conn.connectedMu.Unlock"]%string
+  (* ... and the CONDITIONS, as source text: the test of closeIf (C1), the two guards of
+     internalConnect (K1) and the dial-error tests (K3), REGISTER only when err == nil *)
+  /\ conds_client_Conn_closeIf
+    = ["!conn.connected || (rw != nil && rw != conn.io)"; "conn.die != nil"; "for !drained"]%string
+  /\ conds_client_Conn_internalConnect
+    = ["conn.cfg.Server == """""; "conn.connected"; "!hasPort(conn.cfg.Server)"; "conn.cfg.SSL";
+       "conn.cfg.Proxy != """""; "err != nil"; "err == nil"; "conn.cfg.SSL"; "err != nil"]%string
+  /\ conds_client_Conn_ConnectContext = ["err == nil"]%string
+  /\ conds_client_Conn_initialise = ["conn.st != nil"]%string
+  /\ conds_client_Conn_Close = [] /\ conds_client_Conn_Connected = [] /\ conds_client_Conn_setConnected = [].
 Proof. repeat split; vm_compute; reflexivity. Qed.
 
 Notation reach hm hl w sched := (run (fstep hm hl) (init w) sched).
